@@ -5,10 +5,33 @@ from .values import Q, B, CTX, ite, to_fr
 from . import atoms
 
 
+class SArr(_np.ndarray):
+    """object ndarray whose comparisons stay element-wise symbolic (numpy would coerce them to bool)"""
+    def __le__(self, o):
+        return _np.less_equal(self, o, dtype=object).view(SArr)
+
+    def __lt__(self, o):
+        return _np.less(self, o, dtype=object).view(SArr)
+
+    def __ge__(self, o):
+        return _np.greater_equal(self, o, dtype=object).view(SArr)
+
+    def __gt__(self, o):
+        return _np.greater(self, o, dtype=object).view(SArr)
+
+    def __eq__(self, o):
+        return _np.equal(self, o, dtype=object).view(SArr)
+
+    def __ne__(self, o):
+        return _np.not_equal(self, o, dtype=object).view(SArr)
+
+    __hash__ = None
+
+
 def _elem(f):
     def g(x, *a, **k):
         if isinstance(x, _np.ndarray):
-            out = _np.empty(x.shape, dtype=object)
+            out = _np.empty(x.shape, dtype=object).view(SArr)
             for idx in _np.ndindex(x.shape):
                 out[idx] = f(x[idx], *a, **k)
             return out
@@ -60,17 +83,17 @@ class NP:
 
     @staticmethod
     def empty(shape, dtype=None):
-        return _np.empty(shape, dtype=object)
+        return _np.empty(shape, dtype=object).view(SArr)
 
     @staticmethod
     def zeros(shape, dtype=None):
-        a = _np.empty(shape, dtype=object)
+        a = _np.empty(shape, dtype=object).view(SArr)
         a.fill(Q(0))
         return a
 
     @staticmethod
     def ones(shape, dtype=None):
-        a = _np.empty(shape, dtype=object)
+        a = _np.empty(shape, dtype=object).view(SArr)
         a.fill(Q(1))
         return a
 
@@ -92,7 +115,7 @@ class NP:
 
     @staticmethod
     def full(shape, v, dtype=None):
-        a = _np.empty(shape, dtype=object)
+        a = _np.empty(shape, dtype=object).view(SArr)
         a.fill(v)
         return a
 
@@ -100,7 +123,7 @@ class NP:
     def asarray(x, dtype=None, order=None):
         if isinstance(x, _np.ndarray):
             return x
-        a = _np.empty(len(x), dtype=object)
+        a = _np.empty(len(x), dtype=object).view(SArr)
         for i, v in enumerate(x):
             a[i] = v
         return a
@@ -150,7 +173,7 @@ def set_pi(lo='3.1415926', hi='3.1415927'):
 
 
 def obj_array(vals, shape=None):
-    a = _np.empty(len(vals), dtype=object)
+    a = _np.empty(len(vals), dtype=object).view(SArr)
     for i, v in enumerate(vals):
         a[i] = v
     return a.reshape(shape) if shape else a
